@@ -450,6 +450,37 @@ func genMetadata() *leanFile {
 		lost = append(lost, fmt.Sprintf("%s:Server.Restore calls %v (model: Reset, applyCreateStream(stream, true, 0), applyCreateConsumerGroup(group, true))", c06FsmGo, rc))
 	}
 	l.def("restoreCalls", "List String", leanStrList(rc), "calls of Restore")
+	// What metadataAPI.Reset forgets: Restore relies on it to discard ALL previous state before the
+	// snapshot's streams and groups are re-added (a snapshot installed on a running follower). The
+	// top-level statements of Reset that re-make a field of the store (`m.<field> = make(...)`), and
+	// whether the failover table is reset.
+	var resetClears []string
+	resetFailovers := false
+	mf := load(metadataGo)
+	if fd := mf.fn("metadataAPI.Reset"); fd != nil && fd.Body != nil {
+		for _, st := range fd.Body.List {
+			switch x := st.(type) {
+			case *ast.AssignStmt:
+				if len(x.Lhs) == 1 && len(x.Rhs) == 1 {
+					if ce, ok := x.Rhs[0].(*ast.CallExpr); ok && nows(mf.src(ce.Fun)) == "make" {
+						resetClears = append(resetClears, nows(mf.src(x.Lhs[0])))
+					}
+				}
+			case *ast.ExprStmt:
+				if nows(mf.src(x.X)) == "m.resetFailovers()" {
+					resetFailovers = true
+				}
+			}
+		}
+	} else {
+		lost = append(lost, metadataGo+":metadataAPI.Reset (function not found)")
+	}
+	if !eqList(resetClears, []string{"m.streams", "m.consumerGroups"}) || !resetFailovers {
+		lost = append(lost, fmt.Sprintf("%s:metadataAPI.Reset re-makes %v, resetFailovers=%v (model: Restore discards every stream, every consumer group and the failover table)", metadataGo, resetClears, resetFailovers))
+	}
+	facts["Metadata.resetClears"] = resetClears
+	l.def("resetClears", "List String", leanStrList(resetClears), "fields of the metadata store that metadataAPI.Reset re-makes (m.<field> = make(...))")
+	l.def("resetFailovers", "Bool", boolLit(resetFailovers), "metadataAPI.Reset calls m.resetFailovers()")
 	// What a snapshot says a group member is subscribed to: Snapshot() takes Members[].Streams from
 	// consumerGroup.GetMembers, which must list the keys of consumer.streams (the subscription set)
 	// — not, say, the keys of consumer.assignments, which lack the streams a stand-by member
